@@ -190,6 +190,25 @@ fn pairs() -> Vec<(&'static str, &'static str)> {
         ("(?<=a)b", "(?x)(?<= a ) b"),
         ("(?<!a)b", "(?#c)(?<!(?#c)a(?#c))(?#c)b(?#c)"),
         ("(?((?=a))ab|c)", "(?x)(?( (?=a) ) ab | c )"),
+        // flag headers with several letters on either side of the `-`
+        ("(?s:(?m:(?-s:(?-m:.^a$))))", "(?sm:(?-sm:.^a$))"),
+        ("(?s:(?m:(?-s:(?-m:.^a$))))", "(?sm)(?-sm).^a$"),
+        ("(?i:(?s:(?-i:(?-s:a.))))", "(?is:(?-is:a.))"),
+        ("(?i:(?-s:(?-m:a.^)))", "(?i-sm:a.^)"),
+        ("(?s:(?m:(?i:(?-s:(?-m:(?-i:a.$))))))b", "(?smi:(?-smi:a.$))b"),
+        ("(?s:(?-m:(?-i:.a$)))", "(?s-mi:.a$)"),
+        ("(?m:(?s:(?-s:(?-m:^.))))(?m:^)", "(?ms:(?-sm:^.))(?m:^)"),
+        ("(?U:(?s:(?-U:(?-s:a*.))))", "(?Us:(?-Us:a*.))"),
+        ("(?i:(?m:(?-i:(?-m:(?-s:a^.)))))", "(?im:(?-ims:a^.))"),
+        // \h and \H as members of a bracket class
+        ("[x[^0-9A-Fa-f]]", "[x\\H]"),
+        ("[^[^0-9A-Fa-f]]", "[^\\H]"),
+        ("[[^0-9A-Fa-f]\\d]", "[\\H\\d]"),
+        ("[[0-9A-Fa-f]g]", "[\\hg]"),
+        ("[^[0-9A-Fa-f]g]", "[^\\hg]"),
+        ("[g[0-9A-Fa-f]-]", "[g\\h-]"),
+        ("[^x[^0-9A-Fa-f]]+", "[^x\\H]+"),
+        ("(?=[x[^0-9A-Fa-f]])[^a]", "(?=[x\\H])[^a]"),
     ]
 }
 
